@@ -263,6 +263,9 @@ func gstate(gid int64, buf *[]byte) (string, bool, bool) {
 
 const settleBound = 8 * time.Second
 
+// a cancelled reader exits at once, or after the 250 ms back-off sleep
+const exitBound = 3 * time.Second
+
 var confirmations int64
 
 // settle waits until the reader is quiescent and says where:
@@ -416,8 +419,8 @@ func stopReader(r *reader, nd *vnode) error {
 	select {
 	case <-r.done:
 		return nil
-	case <-time.After(settleBound):
-		return fmt.Errorf("reader did not exit within %v after cancel+InterruptGetNext", settleBound)
+	case <-time.After(exitBound):
+		return fmt.Errorf("reader did not exit within %v after cancel+InterruptGetNext", exitBound)
 	}
 }
 
@@ -1007,7 +1010,7 @@ func runRandom(g *rig, id int, seed int64, maxK, maxRep int) (res *result) {
 			expected += a
 		}
 	}
-	deadline := time.Now().Add(4 * time.Second)
+	deadline := time.Now().Add(2 * time.Second)
 	pDisc := 0.10 + rng.Float64()*0.25
 	conns := 0
 	stop := func(r *reader) {
@@ -1115,13 +1118,11 @@ func runRandom(g *rig, id int, seed int64, maxK, maxRep int) (res *result) {
 		res.Complete = true
 		stop(r)
 	}
+	exitBy := time.After(exitBound)
 	for _, rd := range readers {
 		select {
 		case <-rd.done:
-			if rd.sawGet {
-				res.SawGet = true
-			}
-		case <-time.After(settleBound):
+		case <-exitBy:
 			res.Inconclusive = "a cancelled reader did not exit"
 			return res
 		}
@@ -1190,7 +1191,7 @@ func runPool(t *testing.T, n int, job func(g *rig, i int) *result, outPath strin
 					res = &result{ID: i, Skipped: true, Delivered: [][2]int64{}}
 				} else {
 					res = job(g, i)
-					if res.Bad {
+					if res.Bad || res.Inconclusive != "" {
 						atomic.AddInt64(&failures, 1)
 					}
 				}
